@@ -1517,12 +1517,14 @@ class ComputeGraph(MultiDiGraph):
         if label == "t":
             return label
         if label in self._node_names:
-            n = self._node_names[label]
-            if n == 0:
-                label_new = f"{label}_v1"
-            else:
-                label_new = f"{label}_v{n + 1}"
-            self._node_names[label] += 1
+            # derive `x_v1`, `x_v2`, ... but never a label that is already taken, e.g. by a user variable that is
+            # itself called `x_v1`
+            while True:
+                self._node_names[label] += 1
+                label_new = f"{label}_v{self._node_names[label]}"
+                if label_new not in self._node_names:
+                    break
+            self._node_names[label_new] = 0
         else:
             label_new = label
             self._node_names[label] = 0
